@@ -376,15 +376,19 @@ impl BytecodeInterpreter {
                 self.vm.add_op1(Op::Jump, 0xffff, *span);
 
                 let else_block_offset = self.vm.current_offset();
-                self.vm
-                    .patch_u16_value_at(if_jump_offset, else_block_offset - (if_jump_offset + 2));
+                self.vm.patch_u16_value_at(
+                    if_jump_offset,
+                    Self::jump_distance(if_jump_offset + 2, else_block_offset),
+                );
 
                 self.compile_expression(else_expr);
 
                 let end_offset = self.vm.current_offset();
 
-                self.vm
-                    .patch_u16_value_at(else_jump_offset, end_offset - (else_jump_offset + 2));
+                self.vm.patch_u16_value_at(
+                    else_jump_offset,
+                    Self::jump_distance(else_jump_offset + 2, end_offset),
+                );
             }
             Expression::List { span, elements, .. } => {
                 for element in elements {
@@ -397,6 +401,13 @@ impl BytecodeInterpreter {
                 unreachable!("Typed holes cause type inference errors")
             }
         };
+    }
+
+    /// The operand of a jump instruction: the distance from the end of the instruction to
+    /// the jump target. Positions in the bytecode are not limited to 16 bits (the code of
+    /// the main program grows with every statement), only the distance is.
+    fn jump_distance(from: usize, to: usize) -> u16 {
+        u16::try_from(to - from).expect("jump distance fits into 16 bits")
     }
 
     fn compile_define_variable(&mut self, define_variable: &DefineVariable) {
